@@ -3,7 +3,9 @@
 
   seedtest.py confirm <src_dir> <seed_id> <property>   verify (scratch worktree): patch applies, repo tests unchanged, demo fails with / passes
                                                        without; then store it as /verif/seeded/<seed_id>/ {patch.diff, demo.py, notes.md, meta.json}
-  seedtest.py run <seed_id> [check ids...]             apply seeded/<seed_id>/patch.diff to /repo, run the quick checks, ALWAYS revert; record in meta.json
+  seedtest.py run <seed_id> [check ids...]             apply seeded/<seed_id>/patch.diff to a scratch worktree of /repo HEAD, run the quick checks with VERIF_REPO pointing
+                                                       there, remove the worktree; record in meta.json (never touches /repo itself)
+  seedtest.py matrix [par]                             every seed x every registered check; writes seeded/MATRIX.json
 """
 import json
 import os
@@ -75,35 +77,67 @@ def confirm(src, sid, prop):
     return 0 if res['confirmed'] else 1
 
 
-def run(sid, checks):
+def run(sid, checks, save=True):
+    """Runs the quick checks against seeded/<sid> applied to a SCRATCH worktree of /repo HEAD (VERIF_REPO points the checks at it);
+    /repo itself is never touched, so runs can go on in parallel with other work."""
     d = os.path.join(V, 'seeded', sid)
     meta = json.load(open(os.path.join(d, 'meta.json')))
     checks = checks or [meta['breaks_property']]
-    rc, out = sh(['git', '-C', REPO, 'status', '--porcelain'])
-    if out.strip():
-        print('REFUSING: /repo has uncommitted changes:\n' + out)
-        return 2
-    rc, out = sh(['git', '-C', REPO, 'apply', os.path.join(d, 'patch.diff')])
+    wt = f'/tmp/seedrun-{sid}-{os.getpid()}'
+    sh(['git', '-C', REPO, 'worktree', 'remove', '--force', wt])
+    rc, out = sh(['git', '-C', REPO, 'worktree', 'add', '--detach', wt, 'HEAD'])
     if rc != 0:
-        print('patch does not apply to /repo HEAD:\n' + out)
+        print('cannot create a scratch worktree:\n' + out)
         return 2
     try:
+        rc, out = sh(['git', 'apply', os.path.join(d, 'patch.diff')], cwd=wt)
+        if rc != 0:
+            print(f'{sid}: patch does not apply to /repo HEAD:\n' + out)
+            return 2
+        head = sh(['git', '-C', REPO, 'rev-parse', '--short', 'HEAD'])[1].strip()
         for c in checks:
             t = time.time()
-            env = dict(os.environ, VERIF_EVIDENCE_DIR='/tmp/seedtest-evidence')
+            env = dict(os.environ, VERIF_EVIDENCE_DIR=f'/tmp/seedtest-evidence-{os.getpid()}', VERIF_REPO=wt)
             p = subprocess.run(['./check', c, '--tier', 'quick'], cwd=V, stdout=subprocess.PIPE, stderr=subprocess.STDOUT, text=True, timeout=3000, env=env)
             viol = [l for l in p.stdout.splitlines() if l.startswith('VIOLATION')]
             mech = [l.strip()[:300] for l in p.stdout.splitlines() if l.strip().startswith('mechanism:')]
             meta['checks'][c] = {'rc': p.returncode, 'violations': len(viol), 'mechanisms': mech[:4], 'wall_s': round(time.time() - t, 1),
-                                 'repo_head': sh(['git', '-C', REPO, 'rev-parse', '--short', 'HEAD'])[1].strip(), 'detected': p.returncode == 1 and bool(viol)}
-            print(f"{sid} vs {c}: rc={p.returncode} violations={len(viol)} {'DETECTED' if meta['checks'][c]['detected'] else 'MISSED'}  {mech[:2]}")
+                                 'repo_head': head, 'detected': p.returncode == 1 and bool(viol)}
+            print(f"{sid} vs {c}: rc={p.returncode} violations={len(viol)} {'DETECTED' if meta['checks'][c]['detected'] else 'MISSED'}  {mech[:2]}", flush=True)
+        shutil.rmtree(f'/tmp/seedtest-evidence-{os.getpid()}', ignore_errors=True)
     finally:
-        sh(['git', '-C', REPO, 'checkout', '--', '.'])
-    json.dump(meta, open(os.path.join(d, 'meta.json'), 'w'), indent=1)
+        sh(['git', '-C', REPO, 'worktree', 'remove', '--force', wt])
+    if save:
+        json.dump(meta, open(os.path.join(d, 'meta.json'), 'w'), indent=1)
+    return 0
+
+
+def matrix(par):
+    """Every seed against every registered check (quick tier), `par` seeds at a time; writes seeded/MATRIX.json."""
+    ids = sorted(x for x in os.listdir(os.path.join(V, 'seeded')) if os.path.isdir(os.path.join(V, 'seeded', x)))
+    checks = [c['property_id'] for c in json.load(open(os.path.join(V, 'MANIFEST.json')))['checks']]
+    procs, res = [], {}
+    todo = list(ids)
+    while todo or procs:
+        while todo and len(procs) < par:
+            sid = todo.pop(0)
+            procs.append((sid, subprocess.Popen([sys.executable, os.path.abspath(__file__), 'run', sid] + checks, stdout=subprocess.PIPE, stderr=subprocess.STDOUT, text=True)))
+        for sid, p in list(procs):
+            if p.poll() is not None:
+                out = p.stdout.read()
+                print(out, end='', flush=True)
+                procs.remove((sid, p))
+        time.sleep(1)
+    for sid in ids:
+        m = json.load(open(os.path.join(V, 'seeded', sid, 'meta.json')))
+        res[sid] = {c: ('caught' if r.get('detected') else f"missed(rc={r.get('rc')})") for c, r in m.get('checks', {}).items()}
+    json.dump(res, open(os.path.join(V, 'seeded', 'MATRIX.json'), 'w'), indent=1, sort_keys=True)
     return 0
 
 
 if __name__ == '__main__':
     if sys.argv[1] == 'confirm':
         sys.exit(confirm(sys.argv[2], sys.argv[3], sys.argv[4]))
+    if sys.argv[1] == 'matrix':
+        sys.exit(matrix(int(sys.argv[2]) if len(sys.argv) > 2 else 3))
     sys.exit(run(sys.argv[2], sys.argv[3:]))
